@@ -249,6 +249,8 @@ pub fn run_session(case: &Session, loc: &mut Local) -> Result<(), String> {
     let mut gos: Vec<GoRecord> = vec![];
     let mut isready_sent = 0usize;
     let mut search_may_run = false;
+    // the running search was started by a bare go: nothing obliges it to end before the next command
+    let mut running_is_bare = false;
     let mut interrupted_go = false;
     let mut reused_memory_positions = 0usize;
     let mut book_transposed = false;
@@ -321,6 +323,7 @@ pub fn run_session(case: &Session, loc: &mut Local) -> Result<(), String> {
                 u.send(&text);
                 gos.push(GoRecord { pos: cur.clone(), text, expects_move: cur.has_legal_move() });
                 search_may_run = true;
+                running_is_bare = matches!(step.cmd, Cmd::GoBare);
             }
             Cmd::Stop => {
                 if search_may_run {
@@ -359,8 +362,15 @@ pub fn run_session(case: &Session, loc: &mut Local) -> Result<(), String> {
             Wait::BestMove => {
                 let expected = gos.iter().filter(|g| g.expects_move).count();
                 if bestmoves(&u) < expected {
-                    // every go ends by itself (depth reached, movetime, or the 4 s default timer);
-                    // the watchdog counts silence, not total time (see Uci::wait_for)
+                    // a go with a depth or a movetime ends by itself; a bare go is only owed an answer
+                    // when the next stop / go / position / quit arrives (the engine's 4 s default limit
+                    // is not part of the property), so the driver asks for it.
+                    // The watchdog counts silence, not total time (see Uci::wait_for)
+                    if search_may_run && running_is_bare {
+                        u.send("stop");
+                        interrupted_go = true;
+                        loc.class("bare_go_ended_by_stop_before_waiting");
+                    }
                     let mut seen = bestmoves(&u);
                     while seen < expected {
                         if u.wait_for(wait, |l| matches!(l, Line::Out(s) if s.starts_with("bestmove"))).is_none() {
@@ -533,7 +543,22 @@ impl Prop for ReadyDuringSearch {
             }
             _ => {}
         }
-        if u.wait_out_prefix(wait, "bestmove").is_none() && !u.log[mark..].iter().any(|l| matches!(l, Line::Out(s) if s.starts_with("bestmove"))) {
+        if case.kind % 3 != 0 && case.then % 3 == 0 {
+            // no time limit of its own (the engine's 4 s default is not part of the property): give the
+            // answers to the pings five seconds, then ask for the bestmove
+            let mut seen = 0;
+            let need = case.pings as usize + uci_ping as usize;
+            let until = std::time::Instant::now() + Duration::from_secs(5);
+            while seen < need {
+                match u.wait_until(until, |l| matches!(l, Line::Out(s) if s == "readyok" || s == "uciok" || s.starts_with("bestmove"))) {
+                    Some(i) if matches!(&u.log[i], Line::Out(s) if s.starts_with("bestmove")) => break,
+                    Some(_) => seen += 1,
+                    None => break,
+                }
+            }
+            u.send("stop");
+        }
+        if !u.log[mark..].iter().any(|l| matches!(l, Line::Out(s) if s.starts_with("bestmove"))) && u.wait_out_prefix(wait, "bestmove").is_none() {
             return Err(format!("'{}' on '{}' was not answered with a bestmove\n{}", go, fen, u.transcript()));
         }
         u.drain(Duration::from_millis(300));
@@ -582,12 +607,99 @@ impl Prop for ReadyDuringSearch {
     }
 }
 
+// ------------------------------------------------------- a time-limited go ends when its time is up
+
+#[derive(Debug, Clone, Serialize, Deserialize)]
+pub struct TimedCase {
+    pub pool: u8,
+    pub movetime: u16,
+}
+
+/// Allowance on top of the limit: process scheduling under load, the 100 ms timer poll, the
+/// uninterruptible first iteration, the join of up to 32 workers.
+const TIME_SLACK: Duration = Duration::from_secs(20);
+
+pub struct GoEndsOnTime;
+
+impl Prop for GoEndsOnTime {
+    type Case = TimedCase;
+    fn name(&self) -> &'static str {
+        "go_ends_on_time"
+    }
+    fn parallelism(&self, ctx: &Ctx) -> usize {
+        ctx.threads.min(6)
+    }
+    fn max_shrink_iters(&self) -> u32 {
+        8
+    }
+    fn strategy(&self, _: &Ctx) -> BoxedStrategy<TimedCase> {
+        let ms = prop_oneof![3 => 0u16..40, 2 => 40u16..400, 2 => 400u16..2500];
+        (0u8..(QUIET_POOL.len() as u8), ms).prop_map(|(pool, movetime)| TimedCase { pool, movetime }).boxed()
+    }
+    fn test(&self, _: &Ctx, case: &TimedCase, loc: &mut Local) -> Result<(), String> {
+        let wait = Duration::from_secs(60);
+        let pool = case.pool as usize % QUIET_POOL.len();
+        let fen = QUIET_POOL[pool];
+        let mut u = Uci::spawn()?;
+        u.send(&format!("position fen {}", fen));
+        u.send("isready");
+        if u.wait_out(wait, "readyok").is_none() {
+            return Err(format!("no readyok before the search\n{}", u.transcript()));
+        }
+        let go = format!("go movetime {}", case.movetime);
+        let limit_ms = case.movetime as u64;
+        let mark = u.log.len();
+        let sent = std::time::Instant::now();
+        u.send(&go);
+        // nothing else is sent: the search has to end by itself
+        let deadline = sent + Duration::from_millis(limit_ms) + TIME_SLACK;
+        let is_best = |l: &Line| matches!(l, Line::Out(s) if s.starts_with("bestmove"));
+        let mut got = u.wait_until(deadline, is_best);
+        loc.eval();
+        if got.is_none() {
+            let bytes: usize = u.log[mark..].iter().map(|l| if let Line::Out(s) = l { s.len() } else { 0 }).sum();
+            if bytes > 2_000_000 {
+                // megabytes of pv lines are still in the pipe: the lateness is the reader's backlog
+                loc.class("timed:output_backlog_inconclusive");
+                got = u.wait_for(wait, is_best);
+                if got.is_none() {
+                    return Err(format!("'{}' on '{}' was never answered with a bestmove\n{}", go, fen, u.transcript()));
+                }
+            } else {
+                return Err(format!(
+                    "'{}' on '{}' (time limit {} ms) was not answered with a bestmove within {} ms + {:?} although nothing else was sent: a go must be answered when its time is up, not only when the next command arrives ({} bytes of output so far)\n{}",
+                    go, fen, limit_ms, limit_ms, TIME_SLACK, bytes, u.transcript()
+                ));
+            }
+        }
+        let elapsed = u.stamps[got.unwrap()].duration_since(sent);
+        u.drain(Duration::from_millis(200));
+        let n = u.log[mark..].iter().filter(|l| is_best(l)).count();
+        if n != 1 {
+            return Err(format!("{} bestmove lines for one '{}'\n{}", n, go, u.transcript()));
+        }
+        loc.nontrivial(&format!("{:?}", (pool, case.movetime)));
+        loc.class(match case.movetime {
+            0..=39 => "timed:movetime_under_40ms",
+            40..=399 => "timed:movetime_under_400ms",
+            _ => "timed:movetime_400ms_and_more",
+        });
+        loc.sample(|| json!({"fen": fen, "go": go, "limit_ms": limit_ms, "answered_after_ms": elapsed.as_millis() as u64}));
+        u.send("quit");
+        match u.wait_exit(wait) {
+            Some(Some(0)) => Ok(()),
+            other => Err(format!("quit ended the process with {:?}\n{}", other, u.transcript())),
+        }
+    }
+}
+
 pub fn plan(ctx: &Ctx) -> Plan {
     let t = ctx.tier;
     Plan {
         props: vec![
             (Box::new(Sessions { max_steps: 14 }), t.pick(160, 6_000)),
             (Box::new(ReadyDuringSearch), t.pick(24, 600)),
+            (Box::new(GoEndsOnTime), t.pick(36, 900)),
         ],
         rule: "generated sessions of 3-14 commands over {uci, isready, ucinewgame, position startpos|fen [legal moves], go \
                depth 1-4, go movetime 0-299, bare go, stop, .state} plus per-command driver timing {send next at once, wait \
@@ -601,8 +713,12 @@ pub fn plan(ctx: &Ctx) -> Plan {
                an earlier go precedes the readyok of a barrier placed after the next stop/go/position/ucinewgame; .state \
                prints the FEN chess rules define; quit / end of input -> exit status 0. Waits of 60 s are watchdogs on \
                silence (typical latency < 1 s; a process that keeps printing is never timed out). Second part (isready_during_search): on quiet non-book positions a go with at least 1.5 s to \
-               run (movetime, depth 30 or bare go ended by the 4 s default) is followed back to back by 1-3 isready and \
-               then nothing / stop / quit: every readyok must be printed before that search's bestmove. \
+               run (movetime, depth 30 or bare go) is followed back to back by 1-3 isready and \
+               then nothing / stop / quit: every readyok must be printed before that search's bestmove. Third part \
+               (go_ends_on_time): on the same positions one go movetime 0-2499 ms (small values weighted) and then \
+               silence: exactly one bestmove must arrive within movetime + 20 s of the go being written (inconclusive, \
+               and counted, if more than 2 MB of output are in flight). A go without depth or movetime is never required \
+               to end before the next command: the driver sends stop before waiting for its bestmove. \
                Non-trivial = distinct sessions with a search-answered go interrupted by a later \
                command, or >= 2 position commands after a go (memory reuse), or a book placement reached without rights.",
         assumptions: &[
